@@ -13,7 +13,7 @@ NAME=$(basename "$DEMO" .rs)
 git apply --check -R seeded/patch.diff 2>/dev/null || git apply seeded/patch.diff
 cp "$DEMO" sylvia/tests/$NAME.rs
 echo "== demo WITH change (expect failure)"
-cargo test -p sylvia --test $NAME --offline 2>&1 | grep -E "^test result|^error: could not compile" | cut -c1-200 | head -3
+cargo test --workspace --offline --test $NAME 2>&1 | grep -E "^test result|^error: could not compile" | cut -c1-200 | head -3
 W=$?
 echo "== full suite WITH change (expect all ok)"
 mv sylvia/tests/$NAME.rs /tmp/$ID-$NAME.rs.aside
@@ -21,7 +21,7 @@ cargo test --workspace --no-fail-fast --offline 2>&1 | grep -E "^test result" | 
 mv /tmp/$ID-$NAME.rs.aside sylvia/tests/$NAME.rs
 echo "== demo WITHOUT change (expect pass)"
 git apply -R seeded/patch.diff
-cargo test -p sylvia --test $NAME --offline 2>&1 | grep -E "^test result|^error: could not compile" | cut -c1-200 | head -3
+cargo test --workspace --offline --test $NAME 2>&1 | grep -E "^test result|^error: could not compile" | cut -c1-200 | head -3
 git apply seeded/patch.diff
 mkdir -p /verif/seeded/$ID
 cp -r seeded/patch.diff seeded/demo seeded/meta.json /verif/seeded/$ID/ 2>/dev/null
